@@ -76,6 +76,16 @@ FIXTURES = [
     ("C12", "seed:C12-r10-1", "B20"),  # one side's walk stopped by the other side's nodes
     ("C05", "seed:C05-r10-1", "K15"),  # two-way edge not completed
     ("C15", "seed:C15-r10-2", "J7"),   # keyword given another parameter
+    ("C14", "seed:C14-r11-1", "Y26"),  # fixpoint flag reset inside the round
+    ("C04", "seed:C04-r11-3", "Y27"),  # None made into a value, then tested
+    ("C08", "seed:C08-r11-2", "Y28"),  # keyword arguments dropped by a delegate
+    ("C16", "seed:C16-r11-1", "Y29"),  # accumulator created inside the loop
+    ("C15", "seed:C15-r11-1", "D5"),   # a flag property forwarding its neighbour
+    ("C12", "seed:C12-r11-3", "M7"),   # the strategy's veto dropped from is_equivalence
+    ("C04", "seed:C04-r11-1", "R10"),  # a second searcher admitted
+    ("C11", "seed:C11-r11-2", "X8"),   # database made before its cache is filled
+    ("C09", "seed:C09-r11-1", "V17"),  # ring sized from the counted child
+    ("C20", "seed:C20-r11-1", "V18"),  # a label remembered on the class object
 ]
 
 
